@@ -225,6 +225,17 @@ def run(ctx, widen=False):
         lines.append(f"ls\tpowerset|{S(l)}|"); exp.append(safe(lambda: E.powerset(list(l), CTX)))
         if l:
             lines.append(f"ls\tpermutations|{S(l)}|"); exp.append(safe(lambda: E.permutations(list(l), CTX)))
+    # sublists / overlapping groups / run-length coding (theorems contiguous_mem, windows_spec, rld_rle, rle_rld)
+    for l in [x for x in lists if len(x) <= 6][: (600 if thorough else 150)]:
+        lines.append(f"ls\tsublists|{S(l)}|"); exp.append(safe(lambda: E.sublists(list(l), CTX)))
+        for k in (-1, 0, 1, 2, 3, len(l), len(l) + 1):
+            lines.append(f"ls\twindows|{S(l)}|{k}"); exp.append(safe(lambda: E.overlapping_groups(list(l), k, CTX)))
+        # run-length coding is defined on strings: the items are read as code points 97 + (x mod 5)
+        cs = [97 + (x % 5) for x in l]
+        st = "".join(map(chr, cs))
+        lines.append(f"ls\trle|{S(cs)}|"); exp.append(safe(lambda: [[ord(c), n] for c, n in E.run_length_encoding(st, CTX)]))
+        if st:
+            lines.append(f"ls\trlerld|{S(cs)}|"); exp.append(safe(lambda: [ord(c) for c in E.run_length_decoding(E.run_length_encoding(st, CTX), CTX)]))
     out = ctx.driver(lines)
     ctx.count("corr:list-models", len(lines))
     for l, e, o in zip(lines, exp, out):
